@@ -29,8 +29,31 @@ def cls_group_special(e):
 MATCHERS = {}
 
 
-def judge(ctx, bins_events, what, chunk=None):
-    """bins_events: list of (label, binary, events)."""
+def is_toy(e):
+    return e["op"].startswith("ecs.") or e["op"] == "shift.s"
+
+
+def replay_toy(ctx, binp, vec, d, name="g"):
+    """Toy-curve vectors are replayed one process per toy prime: an implementation may legitimately keep per-process
+    tables derived from the curve it is first used with (there is only one curve in production)."""
+    out = []
+    for p in sorted({v["in"].get("p", 0) for v in vec}):
+        part = [v for v in vec if v["in"].get("p", 0) == p]
+        vlib.write_ndjson("%s/in_%s_p%s.ndjson" % (d, name, p), part)
+        vlib.run_driver(ctx, binp, "replay", "%s/%s_p%s.ndjson" % (d, name, p), infile="%s/in_%s_p%s.ndjson" % (d, name, p))
+        out += vlib.read_ndjson("%s/%s_p%s.ndjson" % (d, name, p))
+    return out
+
+
+def judge(ctx, bins_events, what, chunk=None, escalate=None):
+    """bins_events: list of (label, binary, events).
+
+    The property is about the production curves.  The toy-curve tables (events ecs.*, shift.s) rest on the assumption
+    that the implementation is generic in its CurveParams; a deviation seen only there is not a verdict (specialised
+    field arithmetic or precomputed tables for the one production curve are legitimate).  So: a real-size rejection is a
+    violation; a toy rejection is reported together with a real-size one; a toy rejection alone triggers `escalate`
+    (a much larger real-size campaign over the same operand classes) and, if that stays clean, is recorded as a
+    skipped leg, not a violation."""
     allev = []
     for label, binp, ev in bins_events:
         for e in ev:
@@ -39,8 +62,26 @@ def judge(ctx, bins_events, what, chunk=None):
     bad = vlib.validate_trace(ctx, "ECTrace", allev, chunk=chunk)
     for label, binp, ev in bins_events:
         sel = [b for b in bad if b["in"].get("copy") == label]
-        for e in vlib.reproduce(ctx, binp, sel, history=allev):
-            ctx.bad.append(dict(event=slim(e), reason=what))
+        conf = vlib.reproduce(ctx, binp, sel, history=allev)
+        real = [e for e in conf if not is_toy(e)]
+        toy = [e for e in conf if is_toy(e)]
+        if toy and not real and escalate:
+            more = escalate(label, binp)
+            for e in more:
+                e["in"]["copy"] = label
+            ev_n, tr_n = ctx.events, ctx.traces
+            mbad = vlib.validate_trace(ctx, "ECTrace", more, chunk=chunk, label="T_escalate")
+            ctx.events, ctx.traces = ev_n, tr_n
+            real = vlib.reproduce(ctx, binp, mbad, history=more)
+        if real:
+            for e in real + toy:
+                ctx.bad.append(dict(event=slim(e), reason=what))
+        elif toy:
+            msg = ("toy-curve deviation without a real-size counterpart (%s, %d events, first: %s): the implementation is not generic in its "
+                   "curve parameters, or the deviation is confined to toy sizes; the toy leg is skipped, not a verdict on the production curve"
+                   % (label, len(toy), json.dumps(slim(toy[0]))[:300]))
+            ctx.skipped.append(msg)
+            ctx.log("SKIPPED: " + msg)
 
 
 def replay(ctx, path, level, rule):
